@@ -305,6 +305,9 @@ def opSearch (args : List String) : String :=
 
 def answer (line : String) : String :=
   match line.trimAscii.toString.splitOn " " with
+  | ["parse", flags, pat] =>
+    -- the canonical IR is compared in the transport form (`~` for spaces) on the Rust side too
+    Parse.parseLine flags pat
   | ["optimize", flags, ir] => IR.optimizeLine flags ir
   | ["startpred", flags, ir] => IR.startPredLine flags ir
   | ["emit", flags, ir] => IR.emitLine flags ir
